@@ -205,7 +205,7 @@ pub fn property() -> Property {
         level: "exploration",
         rule: "cases are (table bytes, offset); oracle = NUL-scan reference: inside the table with a NUL after it -> Ok(exact sub-slice starting at table+offset), otherwise Err of kind BadOffset or StringTableMissingNul; get = from_utf8(get_raw) or Err. small: exhaustive over every table of length 0..7 over the alphabet {NUL,'a',0xC3,0xA9} and every offset 0..len+2. random: proptest choice sequences, tables up to 4 KiB with varying NUL density and alphabets rich in 0x01/0x7f/0x80/0xff or valid UTF-8 text of 1..4-byte characters with few NULs (4% of the tables: 4..200 KiB with a handful of NULs, i.e. NUL-free runs of 4 096, 65 535, 65 536+ bytes), offsets incl. len-1, len, len+1, k*2^32+i, boundary values and usize::MAX; the table starts at every address residue modulo 8 (small) / a chosen residue modulo 16 (random). Non-trivial: lookup at a non-zero offset that succeeds, or any failing lookup; distinct by case hash.",
         assumptions: &["error kinds are only required to be one of the two the statement names, not a particular one per situation"],
-        subs: vec![Sub::enumerated("small", oracle_small, enum_small, true), Sub::new("random", oracle_random, 64, 3_000_000, 40_000_000)],
+        subs: vec![Sub::enumerated("small", oracle_small, enum_small, true), Sub::new("random", oracle_random, 128, 3_000_000, 40_000_000)],
         extras: vec![crate::fuzz::c15_choice],
     }
 }
